@@ -376,6 +376,23 @@ fn dirs_of(world: &World) -> BTreeSet<String> {
     d
 }
 
+/// Directories as a walk that reads link targets sees them: real directories and followed links to
+/// directories (the reference traversal with walkdir's link policy).
+fn dirs_following(world: &World) -> BTreeSet<String> {
+    let mut d: BTreeSet<String> = BTreeSet::new();
+    for it in fsworld::traverse(world, &[], true) {
+        if let fsworld::RItem::Entry { rel, kind: fsworld::EKind::Dir } = it {
+            d.insert(rel.join("/"));
+        }
+    }
+    d
+}
+
+fn with_follow(mut case: Value, follow: bool) -> Value {
+    case["follow"] = json!(follow);
+    case
+}
+
 fn case_json(world: &World, base: &BaseWalk, layers: &[Layer], history: &History) -> Value {
     json!({
         "kind": "stack",
@@ -419,8 +436,9 @@ fn judge(
     history: &History,
     not_models: &BTreeMap<usize, &NotModel>,
     run: &Run,
+    follow: bool,
 ) -> Judged {
-    let dirs = dirs_of(world);
+    let dirs = if follow { dirs_following(world) } else { dirs_of(world) };
     let base_yielded: BTreeSet<String> = base_run.yielded.iter().cloned().collect();
     // verdict per layer: filters from the history; negations per entry from the pattern itself
     // (per-entry semantics: matched => discarded; a tree discard is what the installed
@@ -568,6 +586,8 @@ pub struct Plan {
     /// sets of layers (canonical order); every permutation is run
     pub stacks: Vec<Vec<Layer>>,
     pub deviations: usize,
+    /// read link targets (walkdir follows links) instead of reading links as files
+    pub follow: bool,
 }
 
 fn subsets_up_to(menu: &[Layer], max: usize) -> Vec<Vec<Layer>> {
@@ -607,25 +627,34 @@ pub fn plan_histories(tier: Tier) -> Vec<Plan> {
         Layer::Not("l/**".into(), NotForm::Text),
         Layer::Not("**/l".into(), NotForm::Text),
     ];
-    let link_plan = |max_entries: usize, k: usize| Plan {
+    let link_plan = |max_entries: usize, k: usize, follow: bool| Plan {
         worlds: crate::props_links::link_worlds(Tier::Quick).into_iter().filter(|w| w.entries() <= max_entries && w.describe().contains("->")).collect(),
         bases: vec![BaseWalk::Path, BaseWalk::Glob("**".into()), BaseWalk::Glob("{a,b}/**".into())],
         stacks: subsets_up_to(&link_menu, 2),
         deviations: k,
+        follow,
     };
     match tier {
         Tier::Quick => vec![
-            Plan { worlds: fsworld::worlds(3, &NAMES, 3), bases, stacks: subsets_up_to(&menu, 2), deviations: 2 },
-            link_plan(3, 1),
+            Plan { worlds: fsworld::worlds(3, &NAMES, 3), bases, stacks: subsets_up_to(&menu, 2), deviations: 2, follow: false },
+            link_plan(3, 1, false),
+            // reading link targets: a tree verdict on a followed link to a directory must prune
+            // everything beneath the link (and nothing else)
+            link_plan(3, 1, true),
         ],
         Tier::Thorough => {
             let mut menu3 = menu.clone();
             menu3.push(Layer::Filter(2));
             vec![
-                Plan { worlds: fsworld::worlds(4, &NAMES, 3), bases: bases.clone(), stacks: subsets_up_to(&menu3, 3), deviations: 3 },
-                Plan { worlds: fsworld::worlds(5, &["a", "b"], 4), bases: bases.clone(), stacks: subsets_up_to(&menu, 2), deviations: 2 },
-                Plan { worlds: fsworld::worlds(6, &["a", "b"], 5), bases, stacks: subsets_up_to(&menu, 2), deviations: 1 },
-                link_plan(4, 2),
+                // deep stacks and histories on the small worlds
+                Plan { worlds: fsworld::worlds(3, &NAMES, 3), bases: bases.clone(), stacks: subsets_up_to(&menu3, 2), deviations: 3, follow: false },
+                Plan { worlds: fsworld::worlds(3, &NAMES, 3), bases: bases.clone(), stacks: subsets_up_to(&menu3, 3).into_iter().filter(|s| s.len() == 3).collect(), deviations: 2, follow: false },
+                // larger worlds, shallower stacks and histories
+                Plan { worlds: fsworld::worlds(4, &NAMES, 3), bases: bases.clone(), stacks: subsets_up_to(&menu, 2), deviations: 2, follow: false },
+                Plan { worlds: fsworld::worlds(5, &["a", "b"], 4), bases: bases.clone(), stacks: subsets_up_to(&menu, 2), deviations: 1, follow: false },
+                Plan { worlds: fsworld::worlds(6, &["a", "b"], 5), bases, stacks: subsets_up_to(&menu, 1), deviations: 1, follow: false },
+                link_plan(4, 2, false),
+                link_plan(4, 2, true),
             ]
         },
     }
@@ -643,8 +672,9 @@ fn explore_histories(
     last: Option<(usize, usize)>,
     visit: &mut dyn FnMut(&History, &Run),
     c: &mut Counters,
+    link: wax::walk::LinkBehavior,
 ) {
-    let run = match execute(place, base, layers, history) {
+    let run = match execute_with(place, base, layers, history, link) {
         Ok(r) => r,
         Err(_) => return,
     };
@@ -669,10 +699,37 @@ fn explore_histories(
             }
             for v in [Verdict::File, Verdict::Tree] {
                 history.insert((id, entry.clone()), v);
-                explore_histories(place, base, layers, k, history, Some((id, pos)), visit, c);
+                explore_histories(place, base, layers, k, history, Some((id, pos)), visit, c, link);
                 history.remove(&(id, entry.clone()));
             }
         }
+    }
+}
+
+/// Notes how long a plan took and how many walks it ran when the plan is done.
+struct PlanTimer<'a> {
+    rep: &'a Report,
+    pi: usize,
+    started: std::time::Instant,
+    walks_before: u64,
+    worlds: usize,
+    stacks: usize,
+    deviations: usize,
+    follow: bool,
+}
+
+impl Drop for PlanTimer<'_> {
+    fn drop(&mut self) {
+        self.rep.note(format!(
+            "plan {}: {} worlds x {} stack sets (every permutation) x <= {} deviations, {}: {} walks in {:.0} s",
+            self.pi,
+            self.worlds,
+            self.stacks,
+            self.deviations,
+            if self.follow { "reading link targets" } else { "links read as files" },
+            self.rep.get("walks") - self.walks_before,
+            self.started.elapsed().as_secs_f64()
+        ));
     }
 }
 
@@ -694,7 +751,10 @@ pub fn c13_c16(tier: Tier, which: &'static str) -> i32 {
         }
     }
     let cache = &cache;
-    for plan in &plans {
+    for (pi, plan) in plans.iter().enumerate() {
+        let plan_started = std::time::Instant::now();
+        let walks_before = rep.get("walks");
+        let _plan_guard = PlanTimer { rep: &rep, pi, started: plan_started, walks_before, worlds: plan.worlds.len(), stacks: plan.stacks.len(), deviations: plan.deviations, follow: plan.follow };
         rep.add("worlds", plan.worlds.len() as u64);
         rep.add("stack_sets", plan.stacks.len() as u64);
         plan.worlds.par_iter().for_each(|world| {
@@ -703,7 +763,8 @@ pub fn c13_c16(tier: Tier, which: &'static str) -> i32 {
             bump(&mut c, if place.order_ok { "orders_realised" } else { "orders_not_honoured" }, 1);
             let mut local_outcomes: Vec<u64> = vec![];
             for base in &plan.bases {
-                let Ok(base_run) = execute(&place, base, &[], &History::new()) else { continue };
+                let link = if plan.follow { wax::walk::LinkBehavior::ReadTarget } else { wax::walk::LinkBehavior::ReadFile };
+                let Ok(base_run) = execute_with(&place, base, &[], &History::new(), link) else { continue };
                 for set in &plan.stacks {
                     let perms = permutations(set);
                     let canonical = &perms[0];
@@ -713,7 +774,7 @@ pub fn c13_c16(tier: Tier, which: &'static str) -> i32 {
                     let mut histories: Vec<History> = vec![];
                     {
                         let mut visit = |h: &History, _r: &Run| histories.push(h.clone());
-                        explore_histories(&place, base, canonical, plan.deviations, &mut History::new(), None, &mut visit, &mut c);
+                        explore_histories(&place, base, canonical, plan.deviations, &mut History::new(), None, &mut visit, &mut c, link);
                     }
                     bump(&mut c, "histories", histories.len() as u64);
                     for h in &histories {
@@ -721,7 +782,7 @@ pub fn c13_c16(tier: Tier, which: &'static str) -> i32 {
                         // (permutation, yielded, deviates from the model exactly as the recorded mirror predicts)
                         let mut yields: Vec<(Vec<Layer>, Vec<String>, bool)> = vec![];
                         for perm in &perms {
-                            let run = match execute(&place, base, perm, h) {
+                            let run = match execute_with(&place, base, perm, h, link) {
                                 Ok(r) => r,
                                 Err(msg) => {
                                     if !msg.starts_with("SKIP") {
@@ -729,7 +790,7 @@ pub fn c13_c16(tier: Tier, which: &'static str) -> i32 {
                                             class: None,
                                             key: format!("fail {} {:?} {:?}", world.describe(), base, perm),
                                             msg: format!("{} over {} in {} fails: {}", perm.iter().map(|l| l.describe()).collect::<Vec<_>>().join("."), base.describe(), world.describe(), msg),
-                                            case: case_json(world, base, perm, h),
+                                            case: with_follow(case_json(world, base, perm, h), plan.follow),
                                         });
                                     }
                                     continue;
@@ -743,7 +804,7 @@ pub fn c13_c16(tier: Tier, which: &'static str) -> i32 {
                                 local_outcomes.push(hasher.finish());
                             }
                             let nm = not_models_for(perm);
-                            let j = judge(world, base, &base_run, perm, h, &nm, &run);
+                            let j = judge(world, base, &base_run, perm, h, &nm, &run, plan.follow);
                             let (problems, label) = if which == "C13" { (&j.problems_c13, "C13") } else { (&j.problems_c16, "C16") };
                             if !problems.is_empty() {
                                 let class = if j.residue_mirror { Some("residue-relative-to-traversal-root".to_string()) } else { None };
@@ -758,7 +819,7 @@ pub fn c13_c16(tier: Tier, which: &'static str) -> i32 {
                                         history_text(h),
                                         problems.join("; ")
                                     ),
-                                    case: case_json(world, base, perm, h),
+                                    case: with_follow(case_json(world, base, perm, h), plan.follow),
                                 });
                             }
                             yields.push((perm.clone(), run.yielded.clone(), j.residue_mirror && !(j.problems_c13.is_empty() && j.problems_c16.is_empty())));
@@ -786,7 +847,7 @@ pub fn c13_c16(tier: Tier, which: &'static str) -> i32 {
                                             perm.iter().map(|l| l.describe()).collect::<Vec<_>>().join("."),
                                             y
                                         ),
-                                        case: case_json(world, base, perm, h),
+                                        case: with_follow(case_json(world, base, perm, h), plan.follow),
                                     });
                                 }
                             }
@@ -947,7 +1008,7 @@ pub fn c03(tier: Tier) -> i32 {
                 if let Some(m) = &models[li] {
                     nm.insert(0usize, m);
                 }
-                let j = judge(world, base, &base_run, &stack, &History::new(), &nm, &run);
+                let j = judge(world, base, &base_run, &stack, &History::new(), &nm, &run, false);
                 if !j.problems_c03.is_empty() {
                     rep.alarm(Alarm {
                         class: j.class.clone(),
@@ -1086,14 +1147,16 @@ pub fn replay_stack(case: &Value, which: &str) -> bool {
     let place = fswalk::place(&scratch, &world);
     println!("world {} (readdir order honoured: {})", world.describe(), place.order_ok);
     println!("{} . {}  history [{}]", base.describe(), layers.iter().map(|l| l.describe()).collect::<Vec<_>>().join(" . "), history_text(&history));
-    let base_run = match execute(&place, &base, &[], &History::new()) {
+    let follow = case["follow"].as_bool().unwrap_or(false);
+    let link = if follow { wax::walk::LinkBehavior::ReadTarget } else { wax::walk::LinkBehavior::ReadFile };
+    let base_run = match execute_with(&place, &base, &[], &History::new(), link) {
         Ok(r) => r,
         Err(e) => {
             println!("base walk fails: {}", e);
             return true;
         },
     };
-    let run = match execute(&place, &base, &layers, &history) {
+    let run = match execute_with(&place, &base, &layers, &history, link) {
         Ok(r) => r,
         Err(e) => {
             println!("walk fails: {}", e);
@@ -1102,7 +1165,7 @@ pub fn replay_stack(case: &Value, which: &str) -> bool {
     };
     let owned: BTreeMap<usize, NotModel> = layers.iter().enumerate().filter_map(|(i, l)| if matches!(l, Layer::Not(..)) { NotModel::new(l).map(|m| (i, m)) } else { None }).collect();
     let nm: BTreeMap<usize, &NotModel> = owned.iter().map(|(k, v)| (*k, v)).collect();
-    let j = judge(&world, &base, &base_run, &layers, &history, &nm, &run);
+    let j = judge(&world, &base, &base_run, &layers, &history, &nm, &run, follow);
     println!("  underlying walk feeds {:?} and yields {:?}", base_run.fed, base_run.yielded);
     println!("  observed: fed {:?}, yielded {:?}, calls {:?}", run.fed, run.yielded, run.calls);
     let problems = match which {
@@ -1118,7 +1181,7 @@ pub fn replay_stack(case: &Value, which: &str) -> bool {
         // order independence
         let mut reference: Option<Vec<String>> = None;
         for perm in permutations(&layers) {
-            if let Ok(r) = execute(&place, &base, &perm, &history) {
+            if let Ok(r) = execute_with(&place, &base, &perm, &history, link) {
                 let mut y = r.yielded.clone();
                 y.sort();
                 println!("  {} yields {:?}", perm.iter().map(|l| l.describe()).collect::<Vec<_>>().join("."), y);
